@@ -1,7 +1,21 @@
 import KcpVerif.Model.Kcp
-/-! C01 — reliable ordered stream: the reader sees a prefix of what was written. -/
+import KcpVerif.Lemmas.C01Ops
+import KcpVerif.Lemmas.C01Sys
+import KcpVerif.Lemmas.KcpAcc
+import KcpVerif.Lemmas.KcpFrg
+/-!
+C01 — reliable ordered stream: the reader sees a prefix of what was written.
+Protocol-core part (`C01_core`, DESIGN.md 7.1 items 1–4) on the model `Model/Kcp.lean` of kcp.go.
+
+Formulation.  `G : U32 → Content` is the genuine content function: the `(frg, data)` pair the peer
+assigned to 32-bit sequence number `sn`.  That `G` is a function of the 32-bit number IS the range
+hypothesis (item 4): no two different segments that the network may still deliver share a 32-bit
+sequence number.  The adversary (`OpGenuine`) may drop, duplicate, reorder, delay and replay
+datagrams, truncate them, glue them together, and forge every ACK / WASK / WINS segment and every
+header field of a PUSH segment other than `(sn, frg, len, payload)`.
+-/
 namespace KcpVerif.Props
-open KcpVerif KcpVerif.Gen KcpVerif.Kcp
+open KcpVerif KcpVerif.Gen KcpVerif.Kcp KcpVerif.Frame KcpVerif.Recv KcpVerif.Send KcpVerif.Wire KcpVerif.C01
 
 /-- `Recv` returns exactly the bytes `PeekSize` announced: the merge loop pops the fragments that
 `peekSum` summed (up to and including the first `frg = 0`). -/
@@ -16,14 +30,246 @@ theorem C01_popMsg_length (q : List Seg) : (popMsg q).data.length = peekSum q :=
 
 /-- the merge loop returns the concatenation of a prefix of the queue and leaves the rest -/
 theorem C01_popMsg_split (q : List Seg) :
-    ∃ n, (popMsg q).data = ((q.take n).map (·.data)).flatten ∧ (popMsg q).rest = q.drop n := by
-  induction q with
-  | nil => exact ⟨0, rfl, rfl⟩
-  | cons s rest ih =>
-    unfold popMsg
-    split
-    · exact ⟨1, by simp, by simp⟩
-    · obtain ⟨n, h1, h2⟩ := ih
-      exact ⟨n + 1, by simp [h1], by simp [h2]⟩
+    ∃ n, (popMsg q).data = ((q.take n).map (·.data)).flatten ∧ (popMsg q).rest = q.drop n :=
+  ⟨popCount q, popMsg_data q, popMsg_rest q⟩
+
+/-! ## Receive side (item 3) -/
+
+/-- **Receive-side invariant in every reachable state.**  Start from any fresh core (`Kcp.new` or any
+other state with empty queues: the initial `rcv_nxt` is arbitrary), run ANY sequence of operations
+with arbitrary arguments in which every `input` datagram has genuine PUSH frames.  Then there is `n`
+with `rcv_nxt = sn0 + n`, `delivered ++ rcv_queue = [G sn0 … G (sn0+n-1)]`, and every buffered
+segment is genuine, at or after `rcv_nxt`, the buffer strictly sorted (hence duplicate free). -/
+theorem C01_recv_invariant (G : U32 → Content) (k0 : Kcp) (hf : Fresh k0) (ops : List Op)
+    (hg : ∀ op ∈ ops, OpGenuine G k0.conv op) :
+    ∃ n, InvR G k0.rcv_nxt (run { k := k0 } ops).k (run { k := k0 } ops).dl n := by
+  obtain ⟨n, _, h⟩ := run_invRG ops { k := k0 } 0 (fresh_invRG G k0 hf) hg
+  exact ⟨n, h.inv⟩
+
+/-- **The reader sees a prefix of the genuine stream.**  In every reachable state the byte strings
+returned by all successful `Recv` calls so far, concatenated, are exactly the payloads of the first
+`m` genuine segments `G sn0 … G (sn0+m-1)`, where `m ≤ n` = the number of segments the core has
+accepted in order: nothing lost, duplicated, reordered or altered, whatever the network did. -/
+theorem C01_recv_in_order (G : U32 → Content) (k0 : Kcp) (hf : Fresh k0) (ops : List Op)
+    (hg : ∀ op ∈ ops, OpGenuine G k0.conv op) :
+    ∃ n m, m ≤ n ∧ (run { k := k0 } ops).k.rcv_nxt = k0.rcv_nxt + BitVec.ofNat 32 n ∧
+      (run { k := k0 } ops).dl = gRange G k0.rcv_nxt m ∧
+      (run { k := k0 } ops).got.flatten = bytesOf (gRange G k0.rcv_nxt m) ∧
+      (run { k := k0 } ops).k.rcv_queue.map content = (gRange G k0.rcv_nxt n).drop m := by
+  obtain ⟨n, _, h⟩ := run_invRG ops { k := k0 } 0 (fresh_invRG G k0 hf) hg
+  have hc := h.inv.count
+  have hd : (run { k := k0 } ops).dl = gRange G k0.rcv_nxt (run { k := k0 } ops).dl.length := by
+    rw [← gRange_take G k0.rcv_nxt n _ (by omega), ← h.inv.pre, List.take_left]
+  refine ⟨n, (run { k := k0 } ops).dl.length, by omega, h.inv.nxt, hd, ?_, ?_⟩
+  · rw [h.got]; exact congrArg bytesOf hd
+  · rw [← h.inv.pre, List.drop_left]
+
+/-- **Message boundaries.**  In every reachable state whose accepted genuine prefix has a well-formed
+fragment countdown (`FrgOk`: what `Send` produces — see `C01_send_frgOk`), a successful `Recv` with any
+buffer length returns exactly one whole message: the payloads of the `f + 1` genuine segments
+`m … m+f` following the `m` segments delivered before, where `f` is the fragment number of segment
+`m`; segments `m … m+f-1` have `frg ≠ 0` and segment `m+f` is the first with `frg = 0`. -/
+theorem C01_msg_boundaries (G : U32 → Content) (k0 : Kcp) (hf : Fresh k0) (ops : List Op)
+    (hg : ∀ op ∈ ops, OpGenuine G k0.conv op) (buflen : Nat)
+    (hok : 0 ≤ (recv (run { k := k0 } ops).k buflen).n) :
+    ∃ n, (run { k := k0 } ops).k.rcv_nxt = k0.rcv_nxt + BitVec.ofNat 32 n ∧
+      (FrgOk G k0.rcv_nxt n →
+        ∃ j, j = (G (k0.rcv_nxt + BitVec.ofNat 32 (run { k := k0 } ops).dl.length)).1.toNat + 1 ∧
+          (run { k := k0 } ops).dl.length + j ≤ n ∧
+          (recv (run { k := k0 } ops).k buflen).data =
+            bytesOf ((gRange G k0.rcv_nxt ((run { k := k0 } ops).dl.length + j)).drop
+              (run { k := k0 } ops).dl.length) ∧
+          (∀ i, i + 1 < j →
+            (G (k0.rcv_nxt + BitVec.ofNat 32 ((run { k := k0 } ops).dl.length + i))).1 ≠ 0) ∧
+          (G (k0.rcv_nxt + BitVec.ofNat 32 ((run { k := k0 } ops).dl.length + j - 1))).1 = 0) := by
+  obtain ⟨n, _, h⟩ := run_invRG ops { k := k0 } 0 (fresh_invRG G k0 hf) hg
+  refine ⟨n, h.inv.nxt, fun hfo => ?_⟩
+  obtain ⟨j, _, hle, _, hj, hdata, hmap, hne, hz⟩ := recv_msg h.inv hfo buflen hok
+  refine ⟨j, hj, hle, ?_, hne, hz⟩
+  rw [hdata, take_map_data, hmap]
+
+/-- **Nothing deliverable is stuck** (the receive heap's head is its minimum): in every reachable
+state, right after an `input` or a successful `recv`, either the delivery queue is full
+(`rcv_queue.length ≥ rcv_wnd`) or the segment `rcv_nxt` is not in `rcv_buf`. -/
+theorem C01_moveReady_complete (G : U32 → Content) (k0 : Kcp) (hf : Fresh k0) (ops : List Op)
+    (hg : ∀ op ∈ ops, OpGenuine G k0.conv op) :
+    (run { k := k0 } ops).k.rcv_wnd.toNat ≤ (moveReady (run { k := k0 } ops).k).rcv_queue.length ∨
+      ∀ s ∈ (moveReady (run { k := k0 } ops).k).rcv_buf, s.sn ≠ (moveReady (run { k := k0 } ops).k).rcv_nxt := by
+  obtain ⟨n, _, h⟩ := run_invRG ops { k := k0 } 0 (fresh_invRG G k0 hf) hg
+  obtain ⟨_, _, _, hr⟩ := moveReady_inv h.inv
+  exact hr
+
+/-! ### non-vacuity: a concrete reordered, duplicated delivery of a two-fragment message -/
+
+/-- a datagram with one PUSH segment `sn`, fragment number `frg`, one payload byte -/
+def C01_exDgram (sn frg : Nat) (b : UInt8) : Bytes :=
+  encodeHdr 7 (BitVec.ofNat 8 IKCP_CMD_PUSH) (BitVec.ofNat 8 frg) 32 0 (BitVec.ofNat 32 sn) 0 1 ++ [b]
+
+def C01_exG : U32 → Content := fun sn =>
+  if sn = 0 then (1, [0xBB]) else if sn = 1 then (0, [0xAA]) else if sn = 2 then (0, [0xCC]) else (0, [])
+
+/-- segment 1 arrives first, twice, glued to segment 2; then segment 0 -/
+def C01_exOps : List Op :=
+  [.input (C01_exDgram 1 0 0xAA ++ C01_exDgram 2 0 0xCC) true false 0, .recv 10,
+   .input (C01_exDgram 1 0 0xAA) true true 5, .input (C01_exDgram 0 1 0xBB) true false 9,
+   .recv 1, .recv 10, .update 100, .recv 10, .recv 10]
+
+set_option maxRecDepth 100000 in
+example : Fresh (Kcp.new 7) ∧ (∀ op ∈ C01_exOps, OpGenuine C01_exG (Kcp.new 7).conv op) ∧
+    (run { k := Kcp.new 7 } C01_exOps).got = [[0xBB, 0xAA], [0xCC]] ∧
+    FrgOk C01_exG 0 3 := by
+  refine ⟨fresh_new 7, by decide, by decide, ?_⟩
+  intro i hi
+  have : i = 0 ∨ i = 1 ∨ i = 2 := by omega
+  rcases this with h | h | h <;> subst h <;> decide
+
+/-! ## Send side (items 1–2) -/
+
+/-- **Send-side invariant in every reachable state**, for ANY sequence of operations with arbitrary
+arguments (all byte strings for `input`: forged ACKs and UNAs included).  With `L` the ghost log of
+the contents of the segments `admitSegs` has numbered so far: `snd_nxt = sn0 + |L|`; for some `a`,
+`snd_una = sn0 + a`, `snd_buf` has `|L| − a` entries with sequence numbers `sn0+a, sn0+a+1, …`
+consecutively, and every entry not yet acknowledged carries `(frg, data) = L[sn − sn0]`; queued and
+buffered payloads fit a pool buffer. -/
+theorem C01_send_invariant (k0 : Kcp) (hf : Fresh k0) (ops : List Op) :
+    InvS k0.snd_nxt (run { k := k0 } ops).k (run { k := k0 } ops).log :=
+  (run_invSG ops { k := k0 } (fresh_invSG k0 hf)).1.inv
+
+/-- **The log only grows** (numbered segments are immutable: the stream-mode append of `Send` only
+touches the last element of `snd_queue`, never a numbered segment). -/
+theorem C01_log_monotone (s : GSt) (sn0 : U32) (h : InvSG sn0 s) (ops : List Op) :
+    ∃ X, (run s ops).log = s.log ++ X := (run_invSG ops s h).2
+
+/-- **Header round trip**: the field reads of the peer's `Input` loop give back exactly what
+`segment.encode` wrote (the length as a `uint32`), whatever bytes follow. -/
+theorem C01_hdr_roundtrip (conv : U32) (cmd frg : BitVec 8) (wnd : BitVec 16) (ts sn una : U32) (len : Nat)
+    (rest : Bytes) :
+    parseHdr (encodeHdr conv cmd frg wnd ts sn una len ++ rest) = ⟨conv, cmd, frg, wnd, ts, sn, una, len % 2 ^ 32⟩ :=
+  hdr_roundtrip conv cmd frg wnd ts sn una len rest
+
+/-- **Wire genuineness, byte level.**  Every datagram this endpoint has ever handed to `output` — from
+`flush`, `update` or the flush inside `input` — is a concatenation of frames `encodeHdr … ++ data`
+in which every PUSH frame has `(frg, data) = L[sn − sn0]` and every payload fits a pool buffer; parsed
+by the peer's `Input` loop (any `conv`) it satisfies the receive side's premise `GenuineIn G` for
+every content function `G` that agrees with the log — so the premise of `C01_recv_in_order` is
+discharged by what the endpoint really emits. -/
+theorem C01_wire_genuine (k0 : Kcp) (hf : Fresh k0) (ops : List Op) (G : U32 → Content)
+    (hG : Agree G k0.snd_nxt (run { k := k0 } ops).log) (conv : U32) :
+    ∀ o ∈ (run { k := k0 } ops).wire, Framed G o ∧ GenuineIn G conv o := by
+  intro o ho
+  have h := (run_invSG ops { k := k0 } (fresh_invSG k0 hf)).1.wire G hG o ho
+  exact ⟨h, h.genuineIn conv⟩
+
+/-- the canonical content function `G sn := L[sn − sn0]` agrees with the log while it has at most
+2^32 entries (the range hypothesis of item 4 in its weakest form) -/
+theorem C01_gOf_agree (sn0 : U32) (L : List Content) (h : L.length ≤ 2 ^ 32) : Agree (gOf sn0 L) sn0 L :=
+  gOf_agree sn0 L h
+
+/-! ## Composition (`C01_core`) -/
+
+/-- **Core safety, composed.**  Two fresh cores `A` (writer) and `B` (reader) whose initial sequence
+numbers match (`Kcp.new` on both sides, or any common offset — C12), any configuration on either
+side, ANY interleaving of: arbitrary operations of `A` (including `input` of arbitrary bytes, e.g.
+everything `B` emits, forged or not), arbitrary non-`input` operations of `B`, and deliveries to `B`
+of any datagram `A` has emitted so far — any later time, any number of times, any order, or never.
+Range hypothesis (explicit, decidable on the run): `A` has numbered at most 2^32 segments and `B` has
+delivered at most 2^32.  Then the bytes `B`'s reader has been given, concatenated, are a prefix of
+the payload bytes `A` has numbered, in order: `bytes (L.take m)` for the `m` segments delivered. -/
+theorem C01_core_partial (kA kB : Kcp) (hA : Fresh kA) (hB : Fresh kB) (hsn : kB.rcv_nxt = kA.snd_nxt)
+    (ops : List SOp)
+    (hLa : (srun ⟨{ k := kA }, { k := kB }⟩ ops).A.log.length ≤ 2 ^ 32)
+    (hLb : (srun ⟨{ k := kA }, { k := kB }⟩ ops).B.dl.length ≤ 2 ^ 32) :
+    (srun ⟨{ k := kA }, { k := kB }⟩ ops).B.got.flatten =
+        bytesOf ((srun ⟨{ k := kA }, { k := kB }⟩ ops).A.log.take (srun ⟨{ k := kA }, { k := kB }⟩ ops).B.dl.length) ∧
+      (srun ⟨{ k := kA }, { k := kB }⟩ ops).B.got.flatten <+: bytesOf (srun ⟨{ k := kA }, { k := kB }⟩ ops).A.log := by
+  have hinv := srun_inv ops _ (fresh_sysInv kA kB hA hB hsn)
+  generalize srun ⟨{ k := kA }, { k := kB }⟩ ops = s at hinv hLa hLb
+  obtain ⟨n, hn⟩ := hinv.rcv (gOf kA.snd_nxt s.A.log) (gOf_agree _ _ hLa)
+  have hc := hn.inv.count
+  have hd : s.B.dl = gRange (gOf kA.snd_nxt s.A.log) kA.snd_nxt s.B.dl.length := by
+    rw [← gRange_take _ kA.snd_nxt n _ (by omega), ← hn.inv.pre, List.take_left]
+  have e : s.B.got.flatten = bytesOf (s.A.log.take s.B.dl.length) := by
+    rw [hn.got]
+    conv => lhs; rw [hd]
+    exact bytesOf_gRange_gOf _ _ _ hLb
+  exact ⟨e, by rw [e]; exact bytesOf_take_prefix _ _⟩
+
+/-- **Send-side accounting.**  In every reachable state (any operations, any arguments, stream or
+message mode, `mss > 0` initially — `SetMtu` keeps it positive) the bytes `Send` has put into the
+core so far (`accB`: the whole buffer on return 0; on the stream-mode refusal −2 the part that was
+already appended to the last queued segment — see `C01_send_refusal_takes_bytes`) are exactly the
+payload bytes of `L ++ snd_queue`, in order. -/
+theorem C01_send_accounting (k0 : Kcp) (hf : Fresh k0) (hm : 0 < k0.mss.toNat) (ops : List Op) :
+    (run { k := k0 } ops).accB =
+      bytesOf ((run { k := k0 } ops).log ++ (run { k := k0 } ops).k.snd_queue.map content) :=
+  (run_invAcc ops _ (fresh_invAcc k0 hf hm)).acc
+
+/-- **`C01_core`: the reader sees a prefix of what was written** (raw cores, stream of bytes; in
+message mode the same statement holds for the concatenation of the messages).  Same closed system
+and hypotheses as `C01_core_partial`; `accB` are the bytes `A.Send` has taken. -/
+theorem C01_core (kA kB : Kcp) (hA : Fresh kA) (hB : Fresh kB) (hsn : kB.rcv_nxt = kA.snd_nxt)
+    (hm : 0 < kA.mss.toNat) (ops : List SOp)
+    (hLa : (srun ⟨{ k := kA }, { k := kB }⟩ ops).A.log.length ≤ 2 ^ 32)
+    (hLb : (srun ⟨{ k := kA }, { k := kB }⟩ ops).B.dl.length ≤ 2 ^ 32) :
+    (srun ⟨{ k := kA }, { k := kB }⟩ ops).B.got.flatten <+: (srun ⟨{ k := kA }, { k := kB }⟩ ops).A.accB := by
+  have h1 := (C01_core_partial kA kB hA hB hsn ops hLa hLb).2
+  have h2 := (srun_invAcc ops ⟨{ k := kA }, { k := kB }⟩ (fresh_invAcc kA hA hm)).acc
+  rw [h2, bytesOf_append]
+  exact h1.trans (List.prefix_append _ _)
+
+set_option maxRecDepth 100000 in
+/-- the defect behind the −2 clause of `sendTaken` (raw API, stream mode; unreachable through
+`UDPSession`, whose writes are ≤ mss): `Send` of more than 255·mss bytes fails with −2 *after*
+having appended the head of the buffer to the last queued segment. -/
+theorem C01_send_refusal_takes_bytes :
+    ∃ (k : Kcp) (buf : Bytes), (send k buf).ret = -2 ∧ (send k buf).panic = false ∧
+      (send k buf).k.snd_queue ≠ k.snd_queue := by
+  refine ⟨{ Kcp.new 7 with stream := 1, mss := 1, snd_queue := [{ data := [] }] }, List.replicate 257 0, ?_, ?_, ?_⟩
+  all_goals decide
+
+/-- **Sender's fragment countdown.**  In every reachable state (any operations, any arguments, both
+modes) the fragment numbers of `L ++ snd_queue` are a concatenation of countdowns `c−1, …, 1, 0` with
+`c ≤ 255` (never 255; a non-zero number is followed by its predecessor) ending on a message boundary;
+hence for every content function `G` agreeing with the log and every `n ≤ |L|` the receiver's premise
+`FrgOk G sn0 n` of `C01_msg_boundaries` holds. -/
+theorem C01_send_frgOk (k0 : Kcp) (hf : Fresh k0) (ops : List Op) :
+    CountOkF (pendFrgs (run { k := k0 } ops)) ∧
+    ∀ (G : U32 → Content), Agree G k0.snd_nxt (run { k := k0 } ops).log →
+      ∀ n, n ≤ (run { k := k0 } ops).log.length → FrgOk G k0.snd_nxt n := by
+  have h := run_countOk ops _ (fresh_countOk k0 hf)
+  exact ⟨h, fun G hG n hn => frgOk_of_log h G _ hG n hn⟩
+
+/-- **Full message-mode statement (NOT proved).**  In message mode (`stream = 0` at the writer) the
+messages `B`'s reader has been given are a prefix of the messages `A.Send` accepted, each with its
+original boundaries.  Proved so far: the receiver half (`C01_msg_boundaries`, under `FrgOk`) and the
+byte-level statement `C01_core` (the concatenation of the messages read is a prefix of the
+concatenation of the messages accepted), and the sender's countdown invariant (`C01_send_frgOk`).
+Missing: `n ≤ |L|` for the reader in the composed system (the reader cannot have accepted a sequence
+number the writer has not numbered yet) and the grouping lemma (`accM` = grouping of `L ++ snd_queue`). -/
+def C01_core_msg_full : Prop :=
+  ∀ (kA kB : Kcp), Fresh kA → Fresh kB → kB.rcv_nxt = kA.snd_nxt → 0 < kA.mss.toNat → kA.stream = 0 →
+    ∀ ops : List SOp,
+      (srun ⟨{ k := kA }, { k := kB }⟩ ops).A.log.length ≤ 2 ^ 32 →
+      (srun ⟨{ k := kA }, { k := kB }⟩ ops).B.dl.length ≤ 2 ^ 32 →
+      (srun ⟨{ k := kA }, { k := kB }⟩ ops).B.got <+: (srun ⟨{ k := kA }, { k := kB }⟩ ops).A.accM
+
+/-! ### non-vacuity: a concrete closed run with reordering, duplication, a retransmission -/
+
+/-- `A` sends two messages, flushes (one datagram with both segments), the network delivers it
+twice, `B` reads; `A` retransmits after its RTO, the network delivers the retransmission too -/
+def C01_exSys : List SOp :=
+  [.a (.noDelay 1 10 2 1), .a (.send [1, 2, 3]), .a (.send [4]), .a (.flush true 0), .dlv 1 true false 0,
+   .dlv 0 true false 0, .dlv 0 true true 1, .b (.recv 100), .a (.update 300), .dlv 1 true false 301,
+   .b (.recv 100), .b (.update 400)]
+
+set_option maxRecDepth 1000000 in
+example : Fresh (Kcp.new 7) ∧ (Kcp.new 7).rcv_nxt = (Kcp.new 7).snd_nxt ∧ 0 < (Kcp.new 7).mss.toNat ∧
+    (srun ⟨{ k := Kcp.new 7 }, { k := Kcp.new 7 }⟩ C01_exSys).A.log = [(0, [1, 2, 3]), (0, [4])] ∧
+    (srun ⟨{ k := Kcp.new 7 }, { k := Kcp.new 7 }⟩ C01_exSys).A.wire.length = 2 ∧
+    (srun ⟨{ k := Kcp.new 7 }, { k := Kcp.new 7 }⟩ C01_exSys).A.accB = [1, 2, 3, 4] ∧
+    (srun ⟨{ k := Kcp.new 7 }, { k := Kcp.new 7 }⟩ C01_exSys).B.got = [[1, 2, 3], [4]] ∧
+    (srun ⟨{ k := Kcp.new 7 }, { k := Kcp.new 7 }⟩ C01_exSys).A.dead = false ∧
+    (srun ⟨{ k := Kcp.new 7 }, { k := Kcp.new 7 }⟩ C01_exSys).B.dead = false := by
+  refine ⟨fresh_new 7, by decide, by decide, by decide, by decide, by decide, by decide, by decide, by decide⟩
 
 end KcpVerif.Props
